@@ -30,7 +30,7 @@ func snapshotCalc(calc *calculator.ExpressionCalculator) string {
 func mkVars(binds []binding) *variables.VariableCollection {
 	vars := variables.NewVariableCollection()
 	for _, b := range binds {
-		vars.Add(variables.NewVariable(b.name, b.val))
+		vars.Add(variables.NewVariable(b.name, b.val.Clone())) // own cells: the cases assign them in place
 	}
 	return vars
 }
@@ -81,6 +81,24 @@ func runPurityCase(c *Ctx, expr string, sets [][]binding, goroutines int) {
 		for i := range sets {
 			if varsSnapshot(colls[i]) != varsBefore[i] && note == "" {
 				note = "evaluation modified the variable values of set " + fmt.Sprint(i)
+			}
+		}
+		// variables are mutable cells: after their values were replaced IN PLACE the next evaluation sees the new values
+		// (nothing computed from the old ones may be remembered) - what a new calculator gives for the new values
+		if len(colls) > 0 && note == "" {
+			var now []binding
+			for k, v := range colls[0].GetAll() {
+				nv := evalVarValues[(k*7+len(expr)*3)%len(evalVarValues)]
+				v.Value().Assign(nv)
+				now = append(now, binding{v.Name(), nv.Clone()})
+			}
+			got := outcome(calc.EvaluateUsingVariables(colls[0]))
+			fresh := calculator.NewExpressionCalculator()
+			fresh.SetAutoVariables(false)
+			fresh.SetExpression(expr)
+			want := outcome(fresh.EvaluateUsingVariables(mkVars(now)))
+			if got != want && !strings.Contains(want, "NaN") {
+				note = fmt.Sprintf("after the variable values of set 0 were replaced in place (now %s) the calculator gives %s, a new calculator gives %s", bindsStr(now), got, want)
 			}
 		}
 		// concurrent evaluations of the one parsed instance, separate variable collections
@@ -259,7 +277,7 @@ func runSeparateInstances(c *Ctx, goroutines int, exprs []string, tpls []string)
 func propC19(c *Ctx) {
 	propScaleFunctionTables(c)
 	g := newExGen(c)
-	g.funcs = []string{"Max", "Min", "Sum", "If", "Array", "Abs", "Choose", "Contains"}
+	g.funcs = []string{"Max", "Min", "Sum", "If", "Array", "Abs", "Choose", "Contains", "Ceil", "Floor", "Round", "Trunc", "Sqrt", "Exp", "Ceiling", "Truncate", "Sin", "Log", "Empty"}
 	n := 300
 	if c.Thorough {
 		n = 6000
@@ -285,7 +303,8 @@ func propC19(c *Ctx) {
 			runPurityCase(c, "(a "+o+" 2) + a", [][]binding{{{"a", av}}, {{"a", bv}}}, 0)
 		}
 	}
-	for _, f := range []string{"Min(a, b)", "Max(a, b, a)", "Sum(a, b)", "If(a, a, b)", "Choose(1, a, b)", "Abs(a)", "Array(a, b)[0]", "-a", "NOT a", "a[0]"} {
+	for _, f := range []string{"Min(a, b)", "Max(a, b, a)", "Sum(a, b)", "If(a, a, b)", "Choose(1, a, b)", "Abs(a)", "Array(a, b)[0]", "-a", "NOT a", "a[0]",
+		"Ceil(a)", "Ceiling(a) + a", "Floor(a)", "Round(a) - a", "Trunc(a)", "Truncate(a)", "Sqrt(a)", "Exp(a)", "Ceil(Max(a, b))", "Ceil(If(TRUE, a, b)) + Floor(Choose(1, a, b))", "Ceil(Array(a, b)[0])", "Max(a, b) * 2"} {
 		for _, av := range evalVarValues {
 			runPurityCase(c, f, [][]binding{{{"a", av}, {"b", evalVarValues[c.Rng.Intn(len(evalVarValues))]}}, {{"a", vInt(1)}, {"b", av}}}, 4)
 		}
